@@ -13,6 +13,13 @@
            actions = comma separated  scr.<id>.<hex content> sca.<id>.<tag> scn. srj. str. sta. scj. ser. tlu tld tls tlf | -
            handler call = R|A|N|J (ProcessConfReq/Ack/Nak/Rej) followed by the hex of the options passed | -
            a conc case prints the prefix steps, one combined step for the pair, then "alt=ok term=ok".
+   argv[2] = the implementation's output (MODEL_NEEDS_IMPL): the Identifier choices are taken from it - the
+             first token id0=<n> (start value of the counter f.id) and, in order, the Identifiers of the packets
+             the automaton originated (scr / str / scj tokens).  The model runs with that Identifier policy and
+             checks that it is ADMISSIBLE: a Configure-Request that is not a retransmission must not repeat the
+             Identifier of the previous one, and a Code-Reject must not repeat that of the previous Code-Reject
+             (RFC 1661 5.1, 5.6); otherwise it prints INADMISSIBLE:<why> in that step.  Every other observable
+             is the model's own.  Without an implementation file the policy of /repo HEAD (f.id++ from 0) is used.
    argv[3] is ignored: there is one model, the behaviour of /repo HEAD (all findings fixed).
    Every step of the repaired variant is also re-checked against the RFC table by the extracted
    [conformsb] (guards the extraction); a failure prints MODELBUG. *)
@@ -56,10 +63,37 @@ let rec split_at x = function
 
 let () =
   let lines = read_lines Sys.argv.(1) in
+  let impl_lines = if Array.length Sys.argv > 2 && Sys.argv.(2) <> "-" then read_lines Sys.argv.(2) else [] in
+  let impl_tbl = Array.of_list impl_lines in
+  let line_no = ref (-1) in
   let vname = "repaired" in
   let v = { fix_cells = true; fix_ncp = true } in
   let restore_fixed = true in
   List.iter (fun line ->
+    incr line_no;
+    let impl = if !line_no < Array.length impl_tbl then impl_tbl.(!line_no) else "" in
+    (* Identifier choices of the implementation *)
+    let itoks = tokens impl in
+    let id0 = match itoks with
+      | t :: _ when String.length t > 4 && String.sub t 0 4 = "id0=" ->
+        (try int_of_string (String.sub t 4 (String.length t - 4)) land 255 with _ -> 0)
+      | _ -> 0 in
+    let chosen =
+      List.concat_map (fun tok ->
+        match String.split_on_char ':' tok with
+        | [_; acts; _] ->
+          filter_map (fun a -> match String.split_on_char '.' a with
+            | ("scr" | "str" | "scj") :: id :: _ -> (try Some (int_of_string id land 255) with _ -> None)
+            | _ -> None) (String.split_on_char ',' acts)
+        | _ -> []) itoks |> Array.of_list in
+    let pick (k : nat) : z =
+      let k = int_of_nat k in
+      if k < Array.length chosen then z_of_int chosen.(k)
+      else begin
+        (* beyond what the implementation sent: continue its sequence by +1 *)
+        let base = if Array.length chosen = 0 then id0 else chosen.(Array.length chosen - 1) in
+        z_of_int ((base + (k - Array.length chosen) + 1) land 255)
+      end in
     match tokens line with
     | kind0 :: mc :: mt :: ops ->
       (try
@@ -71,7 +105,8 @@ let () =
         let c = { maxConf = (if mc = "d" then default_cfg.maxConf else z_of_int (int_of_string mc));
                   maxTerm = (if mt = "d" then default_cfg.maxTerm else z_of_int (int_of_string mt));
                   lcp = is_lcp } in
-        let f = ref init in
+        let f = ref (init_id (z_of_int id0) pick) in
+        let scr_sent = ref false and last_scj = ref (-1) in
         let all_items = ref [] in
         (* one event: returns (obs string, action strings, handler-call strings) *)
         let admin_op op =       (* Restore() / Kill() / stale timer fire / exported Timeout(): not events of the automaton *)
@@ -109,13 +144,24 @@ let () =
           let bug = (vname = "repaired") &&
                     not (conformsb c !f e f' && ids_okb !f e (outs f') &&
                          int_of_z f'.restart = int_of_z (counter_after c !f e (outs f'))) in
+          (* admissibility of the Identifier choices made in this step *)
+          let inadm = ref [] in
+          List.iter (function
+            | Scr i ->
+              if !scr_sent && e <> ETimeout && int_of_z i = int_of_z (!f).lastReq then
+                inadm := "INADMISSIBLE:new-Configure-Request-repeats-Identifier" :: !inadm;
+              scr_sent := true
+            | Scj (i, _, _) ->
+              if int_of_z i = !last_scj then inadm := "INADMISSIBLE:Code-Reject-repeats-Identifier" :: !inadm;
+              last_scj := int_of_z i
+            | _ -> ()) (outs f');
           let ncalls = List.length f'.hlog - List.length (!f).hlog in
           let hc = List.rev_map show_hcall (take ncalls f'.hlog) in
           f := f';
           all_items := !all_items @ (IEv e :: List.map (fun a -> IAct a) (outs f'));
           let (((((s, r), a), l), i), fl) = obs f' in
           let edata = match e with EInput (_, _, _, d) -> d | _ -> [] in
-          let acts = filter_map (show_act mock kindn f'.hlog edata) (outs f') @ (if bug then ["MODELBUG"] else []) in
+          let acts = filter_map (show_act mock kindn f'.hlog edata) (outs f') @ (if bug then ["MODELBUG"] else []) @ !inadm in
           (Printf.sprintf "%d/%d/%d/%d/%d/%d" (int_of_z s) (int_of_z r) (if a then 1 else 0)
              (int_of_z l) (int_of_z i) (int_of_z fl), acts, hc) in
         let fmt (o, acts, hc) =
@@ -126,7 +172,7 @@ let () =
                                             | "u" -> x = "tlu" | "d" -> x = "tld" | _ -> false in
         if not conc then begin
           let outl = List.map (fun op -> fmt (do_op op)) ops in
-          print_endline (if outl = [] then "empty" else String.concat " " outl)
+          print_endline (String.concat " " (Printf.sprintf "id0=%d" id0 :: (if outl = [] then ["empty"] else outl)))
         end else begin
           match split_at "/" ops with
           | (prefix, Some [gate; a; b]) ->
@@ -142,7 +188,7 @@ let () =
               else do_op ~last:last0 b in
             let alt = if alternates false !all_items then "alt=ok" else "alt=BAD" in
             let ov = if List.exists (gate_hit gate) aa then "ov=1" else "ov=0" in
-            print_endline (String.concat " " (pre @ [fmt (ob, aa @ ab, ha @ hb); ov; alt; "term=ok"]))
+            print_endline (String.concat " " (Printf.sprintf "id0=%d" id0 :: pre @ [fmt (ob, aa @ ab, ha @ hb); ov; alt; "term=ok"]))
           | _ -> failwith "bad conc case"
         end
       with Failure m -> print_endline ("badcase " ^ m))
